@@ -86,6 +86,10 @@ inductive Ev where
   | leave
   | push
   | pop
+  /-- `perform_include` when no candidate template exists (`ignore missing`, or the
+      `TemplateNotFound` error): the depth charge is taken inside the candidate loop only for a
+      template that was found, so this path neither takes nor releases anything -/
+  | missingInclude
   deriving Repr, DecidableEq
 
 inductive Out where
@@ -178,6 +182,7 @@ def step (s : St) : Ev → Out
   | .pop =>
     if base s < s.cur.frames then .ok { s with cur := { s.cur with frames := s.cur.frames - 1 } }
     else .stuck
+  | .missingInclude => .ok s
 
 /-- run a trace; the first outcome that is not `ok` ends the run -/
 def run (s : St) : List Ev → Out
@@ -259,7 +264,47 @@ structure Edge where
   kind : Char
   w : Nat
   f : Nat
+  /-- depth-neutral statement executed on the frame before the recursive step -/
+  noise : Char := '0'
   deriving Repr
+
+/-- a completed nested construct; `swallow`: a Rust callback discards the error of the construct,
+    so a failure (also "recursion limit exceeded") leaves the state as it was and execution goes on -/
+structure Noise where
+  evs : List Ev
+  swallow : Bool := false
+
+/-- the depth-neutral statements of the harness (`noise_src` in `c11.rs`) as depth events -/
+def noiseOf : Char → Option Noise
+  | '0' => some ⟨[], false⟩
+  -- include that finds nothing: single name / list, `ignore missing`
+  | '1' => some ⟨[.missingInclude], false⟩
+  | '2' => some ⟨[.missingInclude], false⟩
+  -- include of a tiny template
+  | '3' => some ⟨[.enter .includeTpl, .leave], false⟩
+  -- import / from-import of a tiny module and a call of its macro
+  | '4' => some ⟨[.push, .enter .includeTpl, .leave, .pop, .enter .macroCall, .leave], false⟩
+  | '5' => some ⟨[.push, .enter .includeTpl, .leave, .pop, .enter .macroCall, .leave], false⟩
+  -- macro call that returns; call block
+  | '6' => some ⟨[.enter .macroCall, .leave], false⟩
+  | '7' => some ⟨[.enter .macroCall, .enter .callerCall, .leave, .leave], false⟩
+  -- with / for frames
+  | '8' => some ⟨[.push, .push, .pop, .pop], false⟩
+  -- `State::render_block` / `State::call_macro` from a function
+  | '9' => some ⟨[.enter .blockCall, .leave], false⟩
+  | 'a' => some ⟨[.enter .macroCall, .leave], false⟩
+  -- a block whose include finds nothing (error), rendered by a callback that swallows the error
+  | 'b' => some ⟨[.enter .blockCall, .missingInclude, .leave], true⟩
+  -- a block including a template that fails, rendered by a callback that swallows the error
+  | 'c' => some ⟨[.enter .blockCall, .enter .includeTpl, .leave, .leave], true⟩
+  | _ => none
+
+/-- run a depth-neutral statement: the state afterwards is the state before -/
+def runNoise (s : St) (m : Marks) (n : Noise) : Except Pred (St × Marks) :=
+  match runMarks s m n.evs with
+  | .ok (_, m') => .ok (s, m')
+  | .error (.recursion m') => if n.swallow then .ok (s, m') else .error (.recursion m')
+  | .error p => .error p
 
 /-- depth events of one step along an edge, by family.  `first`: the edge is taken for the first
     time.  (`B`/`S`: `self.x()` → the child's block → `super()` → the parent's block → next node;
@@ -304,15 +349,19 @@ def cycle (fam : Char) (edges : Array Edge) (budget : Option Nat) :
     | some e =>
       match runMarks s m (List.replicate (e.w + e.f) Ev.push) with
       | .error p => p
-      | .ok (s1, m1) =>
-        if budget.any (t ≥ ·) then .ok m1
-        else
-          match edgeEvents fam e.kind (t < edges.size) with
-          | none => .other "bad-edge"
-          | some evs =>
-            match runMarks s1 m1 evs with
-            | .error p => p
-            | .ok (s2, m2) => cycle fam edges budget fuel (t + 1) s2 m2
+      | .ok (s0, m0) =>
+        match (noiseOf e.noise).map (runNoise s0 m0) with
+        | none => .other "bad-noise"
+        | some (.error p) => p
+        | some (.ok (s1, m1)) =>
+          if budget.any (t ≥ ·) then .ok m1
+          else
+            match edgeEvents fam e.kind (t < edges.size) with
+            | none => .other "bad-edge"
+            | some evs =>
+              match runMarks s1 m1 evs with
+              | .error p => p
+              | .ok (s2, m2) => cycle fam edges budget fuel (t + 1) s2 m2
 
 def predictCycle (fam : Char) (edges : Array Edge) (limit : Nat) (budget : Option Nat) : Pred :=
   let s0 := init limit
@@ -335,5 +384,27 @@ def predictLoop (d limit : Nat) : Pred :=
   match runMarks s0 ⟨s0.cur.depth, nativeDepth s0⟩ (List.replicate (d + 1) Ev.push) with
   | .error p => p
   | .ok (_, m) => .ok m
+
+/-- a depth-neutral statement in a loop of 1000 iterations, in a given surrounding: top level,
+    inside an included template, a macro, a block, or an include inside a macro.  All iterations
+    are alike (that is what the depth probes check), so one iteration gives the marks. -/
+def predictNoise (ctx noise : Char) (limit : Nat) : Pred :=
+  let pre : Option (List Ev) := match ctx with
+    | 't' => some []
+    | 'i' => some [.enter .includeTpl]
+    | 'm' => some [.enter .macroCall]
+    | 'b' => some [.enter .blockCall]
+    | 'x' => some [.enter .macroCall, .enter .includeTpl]
+    | _ => none
+  match pre, noiseOf noise with
+  | some pre, some n =>
+    let s0 := init limit
+    match runMarks s0 ⟨s0.cur.depth, nativeDepth s0⟩ (pre ++ [.push]) with
+    | .error p => p
+    | .ok (s1, m1) =>
+      match runNoise s1 m1 n with
+      | .error p => p
+      | .ok (_, m2) => .ok m2
+  | _, _ => .other "bad-noise-shape"
 
 end MJ.Depth
